@@ -455,12 +455,57 @@ def gen_sources(ctx):
     return srcs
 
 
+def fresh_parts_case(src, res=None):
+    """Exports of XML parts nobody has navigated yet (the document was only opened): serialising a part - plain,
+    pretty, again plain - is a read; the plain serialisation must be the same bytes before and after, whichever
+    order the parts' roots are first looked at."""
+    out = []
+    for order in ("export-first", "root-first"):
+        doc = DL.open_source(src)
+        if src["kind"] == "sample" and DL.is_big(src["name"]):
+            return out
+        for pname in ("styles", "meta", "settings", "manifest", "content"):
+            try:
+                part = doc.get_part(pname)
+            except Exception:
+                continue
+            if part is None or not hasattr(part, "pretty_serialize"):
+                continue
+            try:
+                if order == "root-first":
+                    part.root
+                before = part.serialize()
+            except Exception:
+                continue  # a part the package does not have (no settings.xml, say)
+            for entry, fn in (("serialize(pretty=True)", lambda: part.serialize(pretty=True)), ("pretty_serialize", part.pretty_serialize)):
+                first = fn()
+                after = part.serialize()
+                second = fn()
+                if res is not None:
+                    res.judge()
+                    res.cls(("fresh-part", pname, entry, order), True)
+                if after != before:
+                    out.append((f"document-changed:XmlPart.{entry}", {"part": pname, "order": order, "bytes_before": len(before), "bytes_after": len(after), "hint": DL.first_diff(before, after)}, {"source": src, "owner": "fresh-part", "entry": entry}))
+                    break
+                if first != second:
+                    out.append((f"second-answer-differs:XmlPart.{entry}", {"part": pname, "order": order}, {"source": src, "owner": "fresh-part", "entry": entry}))
+                    break
+    return out
+
+
 def run(ctx, res):
     srcs = gen_sources(ctx)
     for i, src in enumerate(srcs):
         if not ctx.mine(i):
             continue
         rng = ctx.rng("order", i)
+        try:
+            for m, d, case in fresh_parts_case(src, res)[:2]:
+                res.violation(m, d, case)
+        except Exception as e:
+            import traceback
+
+            res.violation(f"harness-or-open-raised:{type(e).__name__}", {"exc": repr(e), "tb": traceback.format_exc()[-900:]}, {"source": src})
         try:
             n = run_document(src, ctx, res, rng)
         except Exception as e:
@@ -478,6 +523,8 @@ def replay(case):
     from ..core import Res
 
     res = Res()
+    if case.get("owner") == "fresh-part":
+        return [{"mechanism": m, "detail": d} for m, d, _c in fresh_parts_case(case["source"])]
     doc = DL.open_source(case["source"])
     pur = Purity(doc, res, "replay", "")
     big = case["source"]["kind"] == "sample" and DL.is_big(case["source"]["name"])
